@@ -21,6 +21,9 @@ def build_jobs(t: str, sd: int):
     versions = list(range(3, 11)) if thorough else [3, 5, 8, 10]
     for v in versions:
         fam = gen_const.const_family("A", v, sd, thorough)
+        if thorough:
+            for extra in range(1, 8):
+                fam += [x for x in gen_const.const_family("A", v, sd * 100 + extra, True) if x[0].startswith(("const:int:", "const:bytes:freq"))]
         if thorough and v in (3, 6, 9):
             fam += gen_const.const_family("S", v, sd, False)
         if v in (versions[0], versions[-1]) or thorough:
